@@ -41,6 +41,13 @@ SHARED = [
     '.equ LIMIT = 10\n.def tmp = r16\n.device ATtiny11\n ldi tmp, 300',
     '.equ LIMIT = 10\nlab: nop\nlab: nop',
     '.macro a\n nop\n.endm\n.macro b\n nop\n.endm\n.macro c\n nop\n.endm\n.macro d\n nop\n.endm\n nosuchmacro 1',
+    # an unknown macro whose name is equally close to several defined ones (any "did you mean" must not depend on hash order)
+    '.macro delay_a\n nop\n.endm\n.macro delay_b\n nop\n.endm\n.macro delay_c\n nop\n.endm\n.macro delay_d\n nop\n.endm\n.macro delay_e\n nop\n.endm\n delay_x',
+    '.equ sym_a = 1\n.equ sym_b = 2\n.equ sym_c = 3\n.equ sym_d = 4\n .dw sym_x',
+    '.def rg_a = r16\n.def rg_b = r17\n.def rg_c = r18\n.def rg_d = r19\n mov rg_x, r1',
+    'lab_a: nop\nlab_b: nop\nlab_c: nop\nlab_d: nop\n rjmp lab_x',
+    # an include that exists nowhere among the build's directories: the user's configuration directory must not be consulted by the library
+    '.include "c17_cfgpart.inc"\n nop',
     '.equ e1 = 1\n.equ e2 = 2\n.equ e3 = 3\n.equ e4 = 4\n .dw nosuch',
     '.error "stop"', '', ' nop',
     # data, eeprom, messages
@@ -88,6 +95,20 @@ def run(tier, seed, model_ok):
             r = vlib.run_impl([c], envt)
             ref[c[0]] = r.get(c[0], 'NOANSWER ' + r.get('__died__', ''))
         dist['reference builds (fresh process each)'] = len(cases)
+        # the same, alone, under two other environments (HOME / XDG_CONFIG_HOME pointing at a configuration directory
+        # that holds include files of the names the cases use): the library's result must not depend on it
+        for tag in ('envA', 'envB'):
+            home = os.path.join(root, tag); cfg = os.path.join(home, '.config', 'avra-rs', 'includes'); os.makedirs(cfg)
+            for nm, val in (('c17_cfgpart.inc', 1), ('cfg.inc', 2), ('board.inc', 3), ('part.inc', 4)):
+                open(os.path.join(cfg, nm), 'w').write('.equ CFG = %d\n.equ BOARD = %d\n.message "from %s"\n' % (val, val, tag))
+            e2 = dict(envt, HOME=home, XDG_CONFIG_HOME=os.path.join(home, '.config'))
+            for c in cases:
+                r = vlib.run_impl([c], e2)
+                got = r.get(c[0], 'NOANSWER')
+                if got != ref[c[0]]:
+                    vio.append({'what': 'the result of a build depends on the environment (HOME / XDG_CONFIG_HOME)', 'source': src[c[0]], 'reference': ref[c[0]][:300], 'under_' + tag: got[:300], 'key': 'environment'})
+                    break
+            dist['builds under another environment'] += len(cases)
         def compare(label, order, res):
             for c in order:
                 got = res.get(c[0])
